@@ -13,7 +13,7 @@ import argparse
 import random
 import sys
 
-from sympy import Mul, S, Add
+from sympy import Mul, S, Add, Rational
 
 from vlib import driver
 from vlib.driver import Run, pmap, seed
@@ -107,11 +107,35 @@ def build_case(item):
     return term, target, explicit
 
 
+def build_poly_case(item):
+    """a product with a factor that is not expanded, outer * (delta_pq * inner + other): deltas inside
+    such a factor are documented not to be evaluated - whatever is done must keep the value"""
+    kind, sd = item
+    rng = random.Random(sd * 7 + 5)
+    from adcgen.sympy_objects import NonSymmetricTensor, KroneckerDelta
+    spn = rng.choice("ab") if kind == "polyspin" else ""
+    sp = rng.choice("ov")
+    p, q, r = [_sym(n, spn) for n in rng.sample(POOL[sp][:5], 3)]
+    if kind == "polygen":
+        p = _sym(rng.choice(POOL["g"][:3]), "")
+    outer = rng.choice([NonSymmetricTensor("c", (p, q)), NonSymmetricTensor("c", (q, r)) * NonSymmetricTensor("b", (p,)),
+                        NonSymmetricTensor("c", (p, q)) * NonSymmetricTensor("c", (q, r))])
+    inner = rng.choice([NonSymmetricTensor("g", (p,)), NonSymmetricTensor("g", (q,)), NonSymmetricTensor("g", (p, r)),
+                        S.One])
+    other = rng.choice([NonSymmetricTensor("f2", (p, q)), NonSymmetricTensor("f2", (q,)), NonSymmetricTensor("f2", (r, p))])
+    poly = KroneckerDelta(p, q) * inner * rng.choice([1, 2]) + other * rng.choice([1, -1])
+    term = Mul(outer, poly) * rng.choice([1, Rational(1, 2)])
+    from adcgen.indices import Index
+    idxs = sorted(term.atoms(Index), key=lambda s_: s_.name)
+    target = [s_ for s_ in idxs if rng.random() < 0.35]
+    return term, target, True
+
+
 def run_case(item):
     from adcgen.func import evaluate_deltas
     from adcgen.indices import Index
     try:
-        term, target, explicit = build_case(item)
+        term, target, explicit = build_poly_case(item) if item[0].startswith("poly") else build_case(item)
     except RuntimeError:
         return {"status": "skipped", "item": item}
     if not consistent_bks(term):
@@ -161,6 +185,7 @@ def main():
     kinds = ["plain", "general", "spin", "general", "spinall", "spin", "general", "plain"]
     base = seed() * 1000003 + 900
     items = [(kinds[k % len(kinds)], base + k) for k in range(n)]
+    items += [(["poly", "polygen", "polyspin"][k % 3], base + 70000 + k) for k in range(n // 12)]
     results = pmap(run_case, items, limit=120)
     guards = [0, 0]
     for r in results:
